@@ -161,6 +161,9 @@ func loadProgram(repoDir, verifDir string) (*Program, error) {
 					for j := 0; j < ms.Len(); j++ {
 						if fn := prog.MethodValue(ms.At(j)); fn != nil && fn.Pkg == spkgs[i] {
 							P.fnByKey[P.fnKey(fn)] = fn
+							for _, an := range fn.AnonFuncs {
+								P.fnByKey[P.fnKey(an)] = an
+							}
 						}
 					}
 				}
